@@ -116,9 +116,23 @@ type orderStats struct {
 	Ops          int `json:"ops"`           // recorded TryUpdate/TryDelete calls
 	Deletes      int `json:"deletes"`       // of which TryDelete
 	StorageTries int `json:"storage_tries"` // storage tries with updates
+	// Long: signatures of long storage-trie sequences fully permuted by this case; Deferred: of those left to the
+	// one-letter block that records the same sequence
+	Long     []string `json:"long,omitempty"`
+	Deferred []string `json:"deferred,omitempty"`
 }
 
 const maxSegment = 8 // 8! = 40320 replays
+const deferAbove = 6 // storage-trie segments longer than this are permuted once (in the one-letter block)
+
+// segSig identifies a recorded trie sequence together with the state it applies to.
+func segSig(st int, isTrie bool, tr *trieRec) string {
+	s := fmt.Sprintf("state%d %v %x %x|", st, isTrie, tr.addrHash, tr.openRoot)
+	for _, o := range tr.ops {
+		s += fmt.Sprintf("%c%x=%x;", o.kind, o.k, o.v)
+	}
+	return hashOf(s)
+}
 
 func skipKVH(k []byte) bool { return string(k) == "kvh" }
 
@@ -377,6 +391,17 @@ func orderCheck(res *caseResult, o *minichain.Chain, isTrie bool, b *types.Block
 			if n > maxSegment {
 				res.Order.Skipped++
 				continue
+			}
+			if n > deferAbove && tr.storage {
+				// a long storage-trie sequence (the multi-slot contract): the block that holds the special letter ALONE
+				// permutes it; a block that holds it next to a partner letter records the identical sequence on the
+				// identical pre-state. The parent checks that every deferred sequence was permuted somewhere.
+				sig := segSig(res.State, isTrie, tr)
+				if len(res.Letters) > 1 {
+					res.Order.Deferred = append(res.Order.Deferred, sig)
+					continue
+				}
+				res.Order.Long = append(res.Order.Long, sig)
 			}
 			res.Order.Segments++
 			phase := "hash"
